@@ -198,3 +198,27 @@ Definition invertible_row (r : mrow) : bool :=
 
 Definition in_dom (m : mapping) (fl p v : str) : bool :=
   m_exists1 m p v fl || m_exists1 m p v s_generic.
+
+(* the (product, version) pairs that the rows of the running flavor or the generic rows name *)
+Definition dom_list (m : mapping) (fl : str) : list (str * str) :=
+  flat_map (fun r => match r with (f, p, v, _, _) =>
+                       if str_eqb f fl || str_eqb f s_generic then [(p, v)] else [] end) (m_rows m).
+
+Definition pv_eqb (a b : str * str) : bool := str_eqb (fst a) (fst b) && str_eqb (snd a) (snd b).
+
+Definition res_eqb (a b : str * option str) : bool :=
+  str_eqb (fst a) (fst b) &&
+  match snd a, snd b with
+  | Some x, Some y => str_eqb x y
+  | None, None => true
+  | _, _ => false
+  end.
+
+(* as seen from the running flavor, no two named entries are sent to the same target *)
+Definition one_to_one (m : mapping) (fl : str) : bool :=
+  forallb (fun x1 => forallb (fun x2 =>
+    implb (res_eqb (m_apply m (fst x1) (snd x1) fl) (m_apply m (fst x2) (snd x2) fl)) (pv_eqb x1 x2))
+    (dom_list m fl)) (dom_list m fl).
+
+(* the key (flavor, out-product, out-version) under which inverse files a row *)
+Definition row_target (r : mrow) : str * str * str := match r with (f, _, _, q, w) => (f, q, w) end.
